@@ -67,14 +67,25 @@ func jobA(s *Script) jobResult {
 }
 
 // job B: registered operators at symbolic level, interceptors, other modes.
-func jobB(s *Script, level int) jobResult {
+func jobB(s *Script, level, cfg int) jobResult {
 	s.Rewind()
 	lb := lexer.NewBuilder()
 	pow := lb.RegisterTokenType("pow")
 	lb.UseTokenInterceptor(s.Interceptor())
 	pb := parser.NewBuilder(lb).WithTolerantMode(true).WithSmartSemicolon(true)
-	pb.RegisterInfixOperator(pow, level, mkBinary)
-	pb.RegisterPrefixOperator(token.Type(1001), mkPrefix)
+	// which extensions the plugin configuration uses (each alone and together)
+	switch cfg {
+	case 0:
+		pb.RegisterInfixOperator(pow, level, mkBinary)
+		pb.RegisterPrefixOperator(token.Type(1001), mkPrefix)
+	case 1:
+		pb.RegisterPostfixOperator(token.NOT, mkPostfix)
+	case 2:
+		pb.RegisterPrefixOperator(token.MULTIPLY, mkPrefix)
+	case 3:
+		pb.RegisterInfixOperator(token.COLON, level, mkBinary)
+		pb.RegisterPostfixOperator(pow, mkPostfix)
+	}
 	pb.UseExpressionInterceptor(func(p *parser.Parser, next func() ast.Expression) ast.Expression { return next() })
 	pb.UseStatementInterceptor(func(p *parser.Parser, next func() ast.Statement) ast.Statement { return next() })
 	p := pb.Build("")
@@ -105,15 +116,16 @@ func ZZH14aJobs() {
 	sym.Observe("scripts", sa.Types(), sb.Types(), level)
 	sym.FreezeGlobals()
 	tab0, kw0 := precedenceTable(), keywordTable()
+	cfg := sym.Choose("bconfig", 4)
 	if sym.Choose("order", 2) == 0 {
 		a1 := jobA(sa)
-		jobB(sb, level)
+		jobB(sb, level, cfg)
 		a2 := jobA(sa)
 		sym.Assert(sameResult(a1, a2), "job-unaffected-by-a-differently-configured-job")
 	} else {
-		b1 := jobB(sb, level)
+		b1 := jobB(sb, level, cfg)
 		jobA(sa)
-		b2 := jobB(sb, level)
+		b2 := jobB(sb, level, cfg)
 		sym.Assert(sameResult(b1, b2), "job-unaffected-by-a-differently-configured-job")
 	}
 	sym.Assert(SameInts(tab0, precedenceTable()), "package-level-binding-powers-unchanged")
